@@ -66,6 +66,10 @@ Holds(pn, i, j) ==
           [] pn = "G>T"     -> a = "G" /\ b = "T"
           [] pn = "T>A"     -> a = "T" /\ b = "A"
           [] pn = "T>C"     -> a = "T" /\ b = "C"
+          \* user-built predicates (predicate algebra: | , ~ , forward_only)
+          [] pn = "u_or"     -> {a, b} = {"A", "G"} \/ {a, b} = {"C", "T"}
+          [] pn = "u_not_ac" -> ~({a, b} = {"A", "C"})
+          [] pn = "u_fwd"    -> a = "A" /\ b = "G"
 
 RECURSIVE Factor(_, _, _)
 Factor(ps, i, j) == IF ps = <<>> THEN One
